@@ -23,6 +23,7 @@ import (
 	"sync/atomic"
 	"time"
 
+	"github.com/restic/restic/internal/backend"
 	"github.com/restic/restic/internal/data"
 	"github.com/restic/restic/internal/global"
 	"github.com/restic/restic/internal/repository/index"
@@ -520,6 +521,160 @@ func c16Stress(c *vctx, rng *vrng, spinners, blobsPerPack int, budget time.Durat
 			rounds, blobsPerPack, spinners, time.Since(start).Seconds(), twice, maxU, never))
 }
 
+// ---- preliminary index in flight: an in-memory index becomes "full" (index.Full forced true once), is
+// finalized and its upload is held back by the backend; meanwhile other packs finish (StorePack ->
+// saveFullIndex -> MergeFinalIndexes) and savers re-submit blobs of the in-flight index ----
+type c16GateBackend struct {
+	backend.Backend
+	once    sync.Once
+	started chan struct{}
+	release chan struct{}
+}
+
+func (be *c16GateBackend) Unwrap() backend.Backend { return be.Backend }
+func (be *c16GateBackend) Save(ctx context.Context, h backend.Handle, rd backend.RewindReader) error {
+	if h.Type == backend.IndexFile {
+		first := false
+		be.once.Do(func() { first = true })
+		if first {
+			close(be.started)
+			select {
+			case <-be.release:
+			case <-ctx.Done():
+				return ctx.Err()
+			case <-time.After(30 * time.Second):
+			}
+		}
+	}
+	return be.Backend.Save(ctx, h, rd)
+}
+
+func c16InflightIndexCase(c *vctx, name string, rng *vrng) error {
+	e := newVenv(c, name)
+	e.gopts.PackSize = 4
+	if _, _, err := e.cli("init"); err != nil {
+		return err
+	}
+	gate := &c16GateBackend{started: make(chan struct{}), release: make(chan struct{})}
+	var relOnce sync.Once
+	release := func() { relOnce.Do(func() { close(gate.release) }) }
+	defer release()
+	e.gopts.BackendInnerTestHook = func(be backend.Backend) (backend.Backend, error) {
+		gate.Backend = be
+		return gate, nil
+	}
+	origFull := index.Full
+	defer func() { index.Full = origFull }()
+	var fullCalls atomic.Int32
+	index.Full = func(*index.Index) bool { return fullCalls.Add(1) == 1 }
+
+	// every blob is larger than the pack size: one pack per blob, uploaded right away
+	mk := func() []byte { return rng.bytes(4*1024*1024 + 64*1024 + rng.intn(1000)) }
+	first := make([][]byte, 1+rng.intn(2)) // blobs of the index that will be in flight (saved one by one)
+	for i := range first {
+		first[i] = mk()
+	}
+	others := make([][]byte, 2+rng.intn(2))
+	for i := range others {
+		others[i] = mk()
+	}
+	resub := 1 + rng.intn(4)
+	var mu sync.Mutex
+	var calls []c16Call
+	rec := func(id restic.ID, known bool) {
+		mu.Lock()
+		calls = append(calls, c16Call{restic.BlobHandle{ID: id, Type: restic.DataBlob}, false, known})
+		mu.Unlock()
+	}
+	gateSeen := false
+	_, _, err := e.run(func(ctx context.Context, _ global.Options) error {
+		ctx, cancel := context.WithTimeout(ctx, 90*time.Second)
+		defer cancel()
+		repo, err := e.openRepo(ctx)
+		if err != nil {
+			return err
+		}
+		if err := repo.LoadIndex(ctx, restic.NewNoopPrinter()); err != nil {
+			return err
+		}
+		return repo.WithBlobUploader(ctx, func(ctx context.Context, up restic.BlobSaverWithAsync) error {
+			// only the last of these packs makes the (forced) full index; Full is consulted at every StorePack
+			fullCalls.Store(int32(1 - len(first)))
+			for _, b := range first {
+				id, known, _, err := up.SaveBlob(ctx, restic.DataBlob, b, restic.ID{}, false)
+				if err != nil {
+					return err
+				}
+				rec(id, known)
+			}
+			select {
+			case <-gate.started:
+				gateSeen = true
+			case <-ctx.Done():
+				return ctx.Err()
+			case <-time.After(20 * time.Second):
+			}
+			// other content: these packs finish while the index upload is in flight (one uploader is busy
+			// with the index, so handing over blob k+1 means pack k is completely processed)
+			for _, b := range others {
+				id, known, _, err := up.SaveBlob(ctx, restic.DataBlob, b, restic.ID{}, false)
+				if err != nil {
+					return err
+				}
+				rec(id, known)
+			}
+			// the same content as in the in-flight index occurs again, in several files at once
+			var wg sync.WaitGroup
+			var ferr error
+			for w := 0; w < resub; w++ {
+				wg.Add(1)
+				go func(w int) {
+					defer wg.Done()
+					for i := range first {
+						b := first[(i+w)%len(first)]
+						id, known, _, err := up.SaveBlob(ctx, restic.DataBlob, b, restic.ID{}, false)
+						if err != nil {
+							mu.Lock()
+							ferr = err
+							mu.Unlock()
+							return
+						}
+						rec(id, known)
+					}
+				}(w)
+			}
+			wg.Wait()
+			release()
+			return ferr
+		})
+	})
+	release()
+	index.Full = origFull
+	if err != nil {
+		return fmt.Errorf("C16 in-flight index scenario: %w", err)
+	}
+	e.gopts.BackendInnerTestHook = nil
+	after, err := c16Entries(e)
+	if err != nil {
+		return err
+	}
+	names := &c16Names{m: map[restic.BlobHandle]int{}}
+	rs := make([]string, len(calls))
+	unknown := 0
+	for i, cl := range calls {
+		rs[i] = coqTuple(coqN(uint64(names.of(cl.h))), coqBool(cl.dup), coqBool(cl.known))
+		if !cl.known {
+			unknown++
+		}
+	}
+	c.Hist(fmt.Sprintf("inflight-gate-seen=%v", gateSeen))
+	c.Case("api-index-in-flight", gateSeen, len(calls),
+		fmt.Sprintf("CApi [] %s %s", coqList(rs), c16Final(names, after)),
+		fmt.Sprintf("full index of %d blob(s) held back in upload=%v, %d other packs finished meanwhile, %d savers re-submitted its blobs: calls=%d not-known=%d handles after=%d",
+			len(first), gateSeen, len(others), resub, len(calls), unknown, len(after)))
+	return nil
+}
+
 func engineC16(c *vctx) error {
 	c.Header("Model.C16m", "C16m.case", "C16m.check_case")
 	c.Preamble("Import C16m.")
@@ -555,6 +710,11 @@ func engineC16(c *vctx) error {
 			ncalls = npool
 		}
 		if err := c16ApiCase(c, fmt.Sprintf("api%d", i), g, npool, bigEvery, workers, ncalls, dupPct, i%2 == 1 && !lockstep, lockstep); err != nil {
+			return err
+		}
+	}
+	for i := 0; i < c.n(3, 12); i++ {
+		if err := c16InflightIndexCase(c, fmt.Sprintf("inflight%d", i), rng.fork()); err != nil {
 			return err
 		}
 	}
